@@ -643,3 +643,40 @@ Fixpoint run_hist (ops : list op) (h : heap) : option heap :=
     | HFuel => None
     end
   end.
+
+(* ---------- variants of repaired sites (decided at run time by probing the library) ----------
+   v_seed_guard       : prune_leaves_without_taxa / prune_taxa raise SeedNodeDeletionException
+                        (OtherErr) instead of AttributeError on None.remove_child when the node to
+                        remove is the seed (same point, same state: an error relabelling)
+   v_prune_nodes_tail : prune_nodes(prune_leaves_without_taxa=False) applies suppress_unifurcations and
+                        update_bipartitions(suppress_unifurcations=su) instead of ignoring them *)
+Record variants := mkVariants { v_seed_guard : bool; v_prune_nodes_tail : bool }.
+
+Definition relabel_err (from to : err) (r : hres) : hres :=
+  match r with
+  | HErr e h => if err_eqb e from then HErr to h else r
+  | _ => r
+  end.
+
+Definition run_op_v (v : variants) (o : op) (h : heap) : hres :=
+  match o with
+  | OPruneLeavesWithoutTaxa _ _ _ | OPruneTaxa _ _ _ _ _ | ORetainTaxa _ _ _ _ =>
+    if v_seed_guard v then relabel_err AttrErr OtherErr (run_op o h) else run_op o h
+  | OPruneNodes nodes plwt ub su =>
+    let r := if v_seed_guard v then relabel_err AttrErr OtherErr (run_op o h) else run_op o h in
+    if v_prune_nodes_tail v && negb plwt
+    then hbind r (fun h1 => hbind (if su then suppress_unifurcations h1 else HOk h1) (ub_tail_su ub su))
+    else r
+  | _ => run_op o h
+  end.
+
+Fixpoint run_hist_v (v : variants) (ops : list op) (h : heap) : option heap :=
+  match ops with
+  | [] => Some h
+  | o :: r =>
+    match run_op_v v o h with
+    | HOk h' => run_hist_v v r h'
+    | HErr _ h' => run_hist_v v r h'
+    | HFuel => None
+    end
+  end.
